@@ -2,7 +2,7 @@
 From V Require Import Base.
 From V.spec Require Import Spec6809.
 From V.model Require Import MText MValues MOperands MProgram.
-From V.proofs Require Import PRender PC12.
+From V.proofs Require Import PRender PC12 PC18 PC01text PC01acc PC01src.
 From V.gen Require Tables.
 From Coq Require String.
 Import String.StringSyntax.
@@ -121,13 +121,120 @@ Theorem C01_register_lists_and_pairs :
 Proof. split; [exact pshpul_table_agrees_with_datasheet | split; [exact tfrexg_table_agrees_with_datasheet | exact special_tables_are_ok]]. Qed.
 Print Assumptions C01_register_lists_and_pairs.
 
+(* (10) from the SOURCE LINE.  f is a statement line in any layout: an optional label, white space, the mnemonic in
+   either letter case, white space, the operand field, then anything that does not continue the operand (a comment,
+   blanks, the newline) - PC18.well_formed_fields.  l is a numeric literal in any spelling the assembler reads as a
+   decimal number (any number of digits, leading zeros too, up to 65535) or a $hex number (one to four digits in
+   either case); lit_value l is the positional value of its digits.  i is any row of the regenerated table that is
+   not a pseudo operation, a register-list instruction or a branch.  Then the line parses to one statement of that
+   mnemonic whose operand, after resolve_symbols, is of the class written - #lit immediate, lit direct or extended
+   (interchangeable for the CPU under direct page 0), <lit direct, >lit extended, [lit] extended indirect; translate
+   ACCEPTS it whenever the table offers that mode for the mnemonic and the value fits the operand field (the middle
+   conjunct); and whenever it is accepted the bytes decode, by the datasheet, as that mnemonic in that mode with
+   the value written (the last conjunct). *)
+Theorem C01_source_immediate :
+  forall f i l tb, well_formed_fields f -> find_instr (upper_t (lf_mn f)) Tables.instructions = Some i ->
+    plain_row i -> row_ok i = true -> lit_ok l -> lf_ops f = 35 :: lit_text l ->
+  exists n, parse_line (line_of f) = Ok (Some (stmt_of f i (OImmediate (VNum n)))) /\
+    resolve_operand (OImmediate (VNum n)) i tb = Ok (OImmediate (VNum n)) /\
+    (forall opc, Tables.imm i = Some opc -> (Z.of_N (lit_value l) < 16 ^ Z.of_N (imm_digits i))%Z ->
+       exists p, translate_operand (OImmediate (VNum n)) i = Ok p) /\
+    forall p, translate_operand (OImmediate (VNum n)) i = Ok p ->
+      exists bs, final_bytes p = Ok bs /\ N.of_nat (length bs) = cp_size p /\
+        (lit_value l <= 255 /\ decode bs = Some ({| i_mnem := canon (mnem i); i_op := OImm8 (lit_value l) |}, []) \/
+         decode bs = Some ({| i_mnem := canon (mnem i); i_op := OImm16 (lit_value l) |}, [])).
+Proof. exact source_immediate. Qed.
+Print Assumptions C01_source_immediate.
+
+Theorem C01_source_direct_or_extended :
+  forall f i l tb, well_formed_fields f -> find_instr (upper_t (lf_mn f)) Tables.instructions = Some i ->
+    plain_row i -> row_ok i = true -> lit_ok l -> lf_ops f = lit_text l ->
+  exists n o, parse_line (line_of f) = Ok (Some (stmt_of f i (OUnknown (VNum n)))) /\
+    resolve_operand (OUnknown (VNum n)) i tb = Ok o /\
+    (forall od oe, Tables.dir i = Some od -> Tables.ext i = Some oe -> exists p, translate_operand o i = Ok p) /\
+    forall p, translate_operand o i = Ok p ->
+      exists bs, final_bytes p = Ok bs /\ N.of_nat (length bs) = cp_size p /\
+        (lit_value l <= 255 /\ decode bs = Some ({| i_mnem := canon (mnem i); i_op := ODir (lit_value l) |}, []) \/
+         decode bs = Some ({| i_mnem := canon (mnem i); i_op := OExt (lit_value l) |}, [])).
+Proof. exact source_address. Qed.
+Print Assumptions C01_source_direct_or_extended.
+
+Theorem C01_source_forced_direct :
+  forall f i l tb, well_formed_fields f -> find_instr (upper_t (lf_mn f)) Tables.instructions = Some i ->
+    plain_row i -> row_ok i = true -> lit_ok l -> lf_ops f = 60 :: lit_text l ->
+  exists n, parse_line (line_of f) = Ok (Some (stmt_of f i (OUnknown (VNum n)))) /\
+    resolve_operand (OUnknown (VNum n)) i tb = Ok (ODirect (VNum n)) /\
+    (forall opc, Tables.dir i = Some opc -> lit_value l <= 255 -> exists p, translate_operand (ODirect (VNum n)) i = Ok p) /\
+    forall p, translate_operand (ODirect (VNum n)) i = Ok p ->
+      lit_value l <= 255 /\
+      exists bs, final_bytes p = Ok bs /\ N.of_nat (length bs) = cp_size p /\
+        decode bs = Some ({| i_mnem := canon (mnem i); i_op := ODir (lit_value l) |}, []).
+Proof. exact source_forced_direct. Qed.
+Print Assumptions C01_source_forced_direct.
+
+Theorem C01_source_forced_extended :
+  forall f i l tb, well_formed_fields f -> find_instr (upper_t (lf_mn f)) Tables.instructions = Some i ->
+    plain_row i -> row_ok i = true -> lit_ok l -> lf_ops f = 62 :: lit_text l ->
+  exists n, parse_line (line_of f) = Ok (Some (stmt_of f i (OUnknown (VNum n)))) /\
+    resolve_operand (OUnknown (VNum n)) i tb = Ok (OExtended (VNum n)) /\
+    (forall opc, Tables.ext i = Some opc -> exists p, translate_operand (OExtended (VNum n)) i = Ok p) /\
+    forall p, translate_operand (OExtended (VNum n)) i = Ok p ->
+      exists bs, final_bytes p = Ok bs /\ N.of_nat (length bs) = cp_size p /\
+        decode bs = Some ({| i_mnem := canon (mnem i); i_op := OExt (lit_value l) |}, []).
+Proof. exact source_forced_extended. Qed.
+Print Assumptions C01_source_forced_extended.
+
+Theorem C01_source_extended_indirect :
+  forall f i l tb, well_formed_fields f -> find_instr (upper_t (lf_mn f)) Tables.instructions = Some i ->
+    plain_row i -> row_ok i = true -> lit_ok l -> lf_ops f = 91 :: lit_text l ++ [93] ->
+  exists n, let o := OExtIdx (lf_ops f) (VNum n) (LVal VNone) None in
+    parse_line (line_of f) = Ok (Some (stmt_of f i o)) /\
+    resolve_operand o i tb = Ok o /\
+    (forall opc, Tables.ind i = Some opc -> exists p, translate_operand o i = Ok p) /\
+    forall p, translate_operand o i = Ok p ->
+      exists bs, final_bytes p = Ok bs /\ N.of_nat (length bs) = cp_size p /\
+        decode bs = Some ({| i_mnem := canon (mnem i); i_op := OIdx (IExtInd (lit_value l)) |}, []).
+Proof. exact source_indirect. Qed.
+Print Assumptions C01_source_extended_indirect.
+
+(* lit,R - a constant offset from X, Y, U or S: 16..32768 in the 8-bit form when it fits a signed byte, else the 16-bit
+   form (modulo 65536) ... *)
+Theorem C01_source_indexed_offset :
+  forall f i l tb nm rg, well_formed_fields f -> find_instr (upper_t (lf_mn f)) Tables.instructions = Some i ->
+    plain_row i -> row_ok i = true -> lit_ok l ->
+    In (nm, rg) reg_names -> lf_ops f = lit_text l ++ 44 :: nm -> 16 <= lit_value l <= 32768 ->
+  exists n, let o := OIndexed (lf_ops f) (LStr (lit_text l)) nm in let o' := OIndexed (lf_ops f) (LVal (VNum n)) nm in
+    parse_line (line_of f) = Ok (Some (stmt_of f i o)) /\
+    resolve_operand o i tb = Ok o' /\
+    forall p, translate_operand o' i = Ok p ->
+      exists bs, final_bytes p = Ok bs /\ N.of_nat (length bs) = cp_size p /\
+        (decode bs = Some ({| i_mnem := canon (mnem i); i_op := OIdx (IOff8 rg (Z.of_N (lit_value l)) false) |}, []) /\ lit_value l <= 127 \/
+         exists z, decode bs = Some ({| i_mnem := canon (mnem i); i_op := OIdx (IOff16 rg z false) |}, []) /\
+                   (z mod 65536 = Z.of_N (lit_value l) mod 65536)%Z).
+Proof. intros f i l tb nm rg H1 H2 H3 H4 H5. exact (source_indexed_offset f i l tb H1 H2 H3 H4 H5 nm rg). Qed.
+Print Assumptions C01_source_indexed_offset.
+
+(* ... and 0..15: no offset byte for 0 (,R), the 5-bit form otherwise; accepted whenever the mnemonic has an indexed mode *)
+Theorem C01_source_indexed_small :
+  forall f i l tb nm rg opc, well_formed_fields f -> find_instr (upper_t (lf_mn f)) Tables.instructions = Some i ->
+    plain_row i -> row_ok i = true -> lit_ok l ->
+    In (nm, rg) reg_names -> lf_ops f = lit_text l ++ 44 :: nm -> lit_value l <= 15 -> Tables.ind i = Some opc ->
+  exists n, let o := OIndexed (lf_ops f) (LStr (lit_text l)) nm in let o' := OIndexed (lf_ops f) (LVal (VNum n)) nm in
+    parse_line (line_of f) = Ok (Some (stmt_of f i o)) /\
+    resolve_operand o i tb = Ok o' /\
+    exists p bs, translate_operand o' i = Ok p /\ final_bytes p = Ok bs /\ N.of_nat (length bs) = cp_size p /\
+      decode bs = Some ({| i_mnem := canon (mnem i);
+                           i_op := OIdx (if lit_value l =? 0 then IZero rg false else IOff5 rg (Z.of_N (lit_value l))) |}, []).
+Proof. intros f i l tb nm rg opc H1 H2 H3 H4 H5. exact (source_indexed_small f i l tb H1 H2 H3 H5 nm rg opc). Qed.
+Print Assumptions C01_source_indexed_small.
+
 (* PARTIAL, named: (a) labels as operands are patched after layout by fix_addresses with fit_value at the
    same width (theorems of C03 give the branch / PCR displacements); the composition "label operand decodes
    to the label's address" is covered by the correspondence grid (label cases), not stated here;
-   (b) the text-level step from operand text to the operand classes above (Operand.create_from_str /
-   resolve_symbols) is the executable model MOperands.create_operand / resolve_operand, tied to the code by
-   the correspondence grid; (c) known findings label_as_index_offset, forced_direct_label,
-   indirect_label_expr are outside these classes. *)
+   (b) the text-level step from operand text to the operand classes is a theorem for decimal and $hex literals with
+   the prefixes # < > , in brackets, and as the constant offset of X Y U S (10); for the other indexed texts
+   (accumulator offsets, auto increment/decrement, [n,R], PCR), %binary / 'c / negative literals and symbols it is
+   the executable model MOperands.create_operand / resolve_operand, tied to the code by the correspondence grid. *)
 
 Definition t (s : String.string) : text := text_of_string s.
 Local Open Scope string_scope.
@@ -148,3 +255,24 @@ Example C01_nonvacuous :
    Some (mn "LEAX", OIdx (IAcc AccA RX false), []); Some (mn "NEG", ODir 16, []); Some (mn "LDX", OImm16 65535, []);
    Some (mn "PSHU", ORegList 66, [])].
 Proof. eexists. split; vm_compute; reflexivity. Qed.
+
+(* the hypotheses of (10) are met: a labelled line with tabs, a lower-case mnemonic, a mixed-case hex literal and a comment *)
+Example C01_source_nonvacuous :
+  let f := {| lf_label := t "LOOP"; lf_sp1 := [32; 9]; lf_mn := t "lda"; lf_sp2 := [9]; lf_ops := t "#$fE";
+              lf_rest := t " ; a comment
+" |} in
+  well_formed_fields f /\ lit_ok (Hex (t "fE")) /\ lit_value (Hex (t "fE")) = 254 /\ lit_ok (Dec (t "00254")) /\
+  lit_value (Dec (t "00254")) = 254 /\
+  exists i, find_instr (upper_t (lf_mn f)) Tables.instructions = Some i /\ plain_row i /\ row_ok i = true.
+Proof.
+  cbv zeta. split.
+  - unfold well_formed_fields. cbn [lf_label lf_sp1 lf_mn lf_sp2 lf_ops lf_rest].
+    repeat (split; [first [discriminate | vm_compute; reflexivity]|]).
+    split; [right; exists 32, (t "; a comment
+"); repeat split; vm_compute; try reflexivity; discriminate | vm_compute; reflexivity].
+  - split; [split; [discriminate | split; [vm_compute; reflexivity | cbn; repeat constructor]]|].
+    split; [vm_compute; reflexivity|]. split; [split; [discriminate | split; [vm_compute; reflexivity | vm_compute; intros H; discriminate H]]|].
+    split; [vm_compute; reflexivity|].
+    destruct (find_instr (upper_t (t "lda")) Tables.instructions) as [i|] eqn:E; [|vm_compute in E; discriminate].
+    exists i. split; [cbn [lf_mn]; exact E|]. vm_compute in E. injection E as <-. split; [repeat split; vm_compute; reflexivity | vm_compute; reflexivity].
+Qed.
